@@ -2,3 +2,4 @@
 import Iodata.Model.FmtR.GaussianLog
 import Iodata.Model.FmtR.Vasp
 import Iodata.Model.FmtR.Crd
+import Iodata.Model.FmtR.ExtXyz
